@@ -175,6 +175,31 @@ contract(
     ],
 )
 
+_KN = lambda v: " or ".join(f"{v} == '{a}'" for a in ALIASES)   # noqa: E731
+contract(
+    INS, "ImportanceNestedSampler.configure_stopping_criterion",
+    variant_name="two-symbolic", props=["C15", "C20"],
+    params={"stopping_criterion": "PyList(Str,2)",
+            "tolerance": "PyList(Real,2)", "check_criteria": "Str"},
+    modifies=["self.tolerance", "self.criterion", "self._stop_any",
+              "self.stopping_criterion"],
+    raises={"ValueError":
+            f"not ({_KN('stopping_criterion[0]')}) or "
+            f"not ({_KN('stopping_criterion[1]')}) or "
+            "(check_criteria != 'any' and check_criteria != 'all')"},
+    ensures=[
+        # each name resolves to its criterion *in the order given*, so that
+        # criterion k is compared with tolerance k
+        f"implies(stopping_criterion[{k}] == '{a}', "
+        f"self.stopping_criterion[{k}] == '{c}')"
+        for k in (0, 1) for a, c in ALIASES.items()
+    ] + [
+        "len(self.stopping_criterion) == 2 and len(self.tolerance) == 2",
+        "self.tolerance[0] == tolerance[0] and "
+        "self.tolerance[1] == tolerance[1]",
+    ],
+)
+
 contract(
     INS, "ImportanceNestedSampler.configure_stopping_criterion",
     variant_name="length-mismatch", props=["C15", "C20"],
